@@ -27,9 +27,15 @@ def check(repo: Repo, rep, tier):
     positional_map(repo, rep)
     emit_complete(repo, rep)
     insert_once(repo, rep)
-    from .C11 import align_complete, align_window, pair_len
+    from .C11 import align_complete, align_window, pair_len, by_key, equal_keeps
 
     pair_len(repo, rep)
+    by_key(repo, rep)
+    equal_keeps(repo, rep)
+    from .C16 import codegen_pure
+
+    # the text of a created / fixed value is a function of that value alone (no memo shared between snapshots)
+    codegen_pure(repo, rep)
     from .C14 import accumulate
 
     accumulate(repo, rep)
@@ -415,6 +421,24 @@ def positional_map(repo: Repo, rep, prop="C05"):
                 rep.violation("R-POSITIONAL-MAP", pn, pn.node, f"{c.name}.positional_names always answers []: positional arguments of the snapshot are not mapped", construct=f"{c.name}:empty")
             else:
                 rep.ok("R-POSITIONAL-MAP", pn, pn.node, f"{c.name}: keywords-only arguments() with positional_names")
+            # names taken from a `fields(...)` table (dataclasses / attrs): a field is positional only if it is an __init__ parameter that
+            # is not keyword-only - the table lists fields in definition order, a kw_only field of a base class comes first
+            for comp in [x for x in body_nodes(pn.node) if isinstance(x, ast.comprehension) and isinstance(x.iter, ast.Call) and norm(x.iter.func).split(".")[-1] == "fields"]:
+                tests = " ".join(norm(t) for t in comp.ifs)
+                fv = norm(comp.target)
+                has_init = f"{fv}.init" in tests
+                has_kw = "kw_only" in tests
+                if has_init and has_kw:
+                    rep.ok("R-POSITIONAL-MAP", pn, comp.iter, f"{c.name}: only init, non-keyword-only fields are positional")
+                else:
+                    rep.violation(
+                        "R-POSITIONAL-MAP",
+                        pn,
+                        comp.iter,
+                        f"{c.name}.positional_names counts {'keyword-only' if not has_kw else 'init=False'} fields as positional: with such a field declared before a positional one (a kw_only base class) "
+                        "the arguments written by position are paired one off - a fix lands on the neighbouring argument (an Is() / unchanged expression is overwritten)",
+                        construct=f"{c.name}:fields-filter",
+                    )
         elif c.name in NO_POSITIONAL_CTOR:
             rep.ok("R-POSITIONAL-MAP", am, am.node, f"{c.name}: exempt - {NO_POSITIONAL_CTOR[c.name]}")
         else:
